@@ -42,8 +42,9 @@ def build(E):
         return z3.And(z3.Length(enc) + 2 <= 1024, z3.Not(z3.Or(*sur)) if sur else z3.BoolVal(True))
 
     # call-site views of the url helpers (their bodies are decided under C19)
-    purl_t = T.obj(PURL, {"scheme": T.str(), "hostname": T.str(), "port": T.int(), "path": T.str(), "query": T.str(), "fragment": T.str(), "normalized": T.str()})
-    E.caller_contracts[PARSE] = Contract(PARSE, ensures=[("post", parse_url_post(E))], result=purl_t, raises=["ValueError"])
+    # parse_url / validate_url / normalize_url bodies are verified here as well ("host, port, path and query intact")
+    from contracts import C19
+    C19.add_targets(E, spec)
 
     def vu_caller(ctx, old, args, outcome):
         (url,) = args
@@ -137,6 +138,6 @@ def build(E):
     spec.event_contracts[f"{TREQ}.from_line"] = c_tl
     spec.targets.append((f"{TREQ}.from_line", None))
     old_keep = spec.keep
-    spec.keep = lambda name: old_keep(name) or ".from_line/" in name
+    spec.keep = lambda name: old_keep(name) or ".from_line/" in name or "nauyaca.utils.url:" in name
     spec.notes.append("grey zones not asserted: leading whitespace / embedded TAB stripped by urllib, 'size=+1_0', empty '@' user-info, empty '#' fragment")
     return spec
